@@ -824,4 +824,432 @@ Section Pair.
     match goal with H : JDg _ ?x _ |- JD ?y _ => replace y with x; [exact H|] end.
     unfold hitZ. destruct (hit (r_dst r) (a_denom a)); lia.
   Qed.
+
+  (* ---------- the slash callback ---------- *)
+  Lemma sl_slash_validator v0 f : hoare (JD 0) (slash_validator v0 f) (fun _ => JD 0) (fun _ => True).
+  Proof.
+    unfold slash_validator. destruct ((f <=? 0) || (ONE <? f)); [apply hoare_fail; auto|].
+    eapply hoare_bind; [apply sl_get_alliance_validator|]. intros [sv vi]; cbv beta; cbn [snd].
+    (* the loop over the validator's shares writes assets only; what it returns is denom-sorted *)
+    eapply hoare_bind with (Q1 := fun vs' s => (JD 0 s /\ PV v0 vi s) /\ csorted vs').
+    { pose proof (hoare_mfold_acc (Z * Z) Coins (fun s => JD 0 s /\ PV v0 vi s) csorted (fun _ => True) (vi_vshares vi)) as H.
+      eapply hoare_post; [| |apply H]; [intros a s [H1 H2]; split; assumption | auto | apply Forall_forall; auto | | constructor]. clear H.
+      intros acc da Hacc _. cbv zeta.
+      eapply hoare_bind with (Q1 := fun _ s => JD 0 s /\ PV v0 vi s).
+      { match goal with |- hoare _ (if ?b then _ else _) _ _ => destruct b end; [apply hoare_panic; auto | apply hoare_ret; auto]. }
+      intros _.
+      eapply hoare_bind with (Q1 := fun _ s => JD 0 s /\ PV v0 vi s); [unfold get_asset; apply hoare_gets; auto|]. intros oa.
+      destruct oa as [a|]; [|apply hoare_fail; auto].
+      eapply hoare_bind with (Q1 := fun _ s => JD 0 s /\ PV v0 vi s).
+      { apply hoare_post with (Q' := fun _ s => JD 0 s /\ PV v0 vi s) (X' := fun s => JD 0 s /\ PV v0 vi s); [auto | auto|].
+        apply inv_hoare. apply inv_modify. intros s [HJ HP]. split; [exact (sl_set_asset True 0 _ s HJ) | eapply PV_f; [|exact HP]; reflexivity]. }
+      intros _. apply hoare_ret. intros s Hs. split; [exact Hs | apply csorted_cadd1; exact Hacc]. }
+    intros vs'.
+    eapply hoare_bind with (Q1 := fun _ => JD 0).
+    { intros s [[HJ [[Hok1 Hok2] Hp]] Hvs].
+      pose proof (jd_set_valinfo True 0 v0 (set_vi_vshares vs' vi) 0 s) as H.
+      assert (Hpre : JDg True 0 s /\ vi_ok (set_vi_vshares vs' vi) /\ (v0 = v -> camount (vi_dshares (set_vi_vshares vs' vi)) dn = TOT s + 0)).
+      { split; [exact HJ|]. split; [split; cbn; assumption|]. intros E. cbn. rewrite (Hp E). lia. }
+      specialize (H Hpre). unfold set_valinfo, modify in *. cbn in H |- *. eapply JDg_eq; [|exact H]. destruct (v0 =? v); lia. }
+    intros _.
+    eapply hoare_bind; [apply sl_slash_redelegations|]. intros ?; cbv beta.
+    frame True 0.
+  Qed.
+
+  Lemma sl_hook_slash v0 f : hoare (JD 0) (hook_slash v0 f) (fun _ => JD 0) (fun _ => True).
+  Proof. unfold hook_slash. eapply hoare_bind; [apply sl_slash_validator|]. intros ?; cbv beta. frame True 0. Qed.
+
+  (* ---------- messages ---------- *)
+  Lemma sl_msg_delegate del v0 d0 amt : hoare (JD 0) (msg_delegate del v0 d0 amt) (fun _ => JD 0) (fun _ => True).
+  Proof.
+    unfold msg_delegate. destruct (amt <=? 0); [apply hoare_fail; auto|].
+    eapply hoare_bind; [apply sl_get_alliance_validator|]. intros [sv vi]; cbv beta; cbn [snd]. apply sl_k_delegate.
+  Qed.
+  Lemma sl_msg_undelegate del v0 d0 amt : hoare (JD 0) (msg_undelegate del v0 d0 amt) (fun _ => JD 0) (fun _ => True).
+  Proof.
+    unfold msg_undelegate. destruct (amt <=? 0); [apply hoare_fail; auto|].
+    eapply hoare_bind; [apply sl_get_alliance_validator|]. intros [sv vi]; cbv beta; cbn [snd]. apply sl_k_undelegate.
+  Qed.
+  Lemma sl_msg_claim del v0 d0 : hoare (JD 0) (msg_claim del v0 d0) (fun _ => JD 0) (fun _ => True).
+  Proof.
+    unfold msg_claim. eapply hoare_bind; [apply sl_get_alliance_validator|]. intros [sv vi]; cbv beta; cbn [snd].
+    eapply hoare_bind; [apply sl_claim_delegation_rewards|]. intros vi'; cbv beta. apply hoare_ret. intros s [H _]; exact H.
+  Qed.
+  (* fetching a validator never changes this validator's total (a created record is empty) *)
+  Lemma tf_get_alliance_validator T0 v0 : inv (TF T0) (get_alliance_validator v0).
+  Proof.
+    unfold get_alliance_validator. apply inv_bind; [apply inv_gets|]. intros osv. destruct osv; [|apply inv_fail].
+    apply inv_of_hoare. apply hoare_bind_gets_eq. intros s0 Hs0.
+    destruct (kget (valinfos s0) [v0]) as [vi|] eqn:Eg; [apply hoare_ret; intros s1 ->; exact Hs0|].
+    eapply hoare_bind with (Q1 := fun _ => TF T0); [|intros _; apply hoare_ret; auto].
+    unfold set_valinfo. apply hoare_modify. intros s1 ->. destruct Hs0 as [Hs Ht]. split; [cbn; apply ksorted_kset; exact Hs|].
+    rewrite TOT_set_valinfo by exact Hs. destruct (v0 =? v) eqn:E; [|exact Ht].
+    apply Z.eqb_eq in E. subst v0. rewrite <- Ht. unfold TOT, stored_vi. rewrite Eg. reflexivity.
+  Qed.
+
+  Lemma sl_msg_redelegate del src dst d0 amt : hoare (JD 0) (msg_redelegate del src dst d0 amt) (fun _ => JD 0) (fun _ => True).
+  Proof.
+    unfold msg_redelegate. destruct (amt <=? 0); [apply hoare_fail; auto|].
+    eapply hoare_bind; [apply sl_get_alliance_validator|]. intros [sv svi]; cbv beta; cbn [snd].
+    (* fetching the destination may create its (empty) record: the source copy stays current *)
+    eapply hoare_bind with (Q1 := fun r s => JD 0 s /\ PV src svi s /\ PV dst (snd r) s).
+    { intros s [HJ [Hok Hp]]. pose proof (sl_get_alliance_validator True 0 dst s HJ) as H1.
+      pose proof (tf_get_alliance_validator (TOT s) dst s (conj (JDg_sorted _ _ _ HJ) eq_refl)) as H2.
+      destruct (get_alliance_validator dst s) as [[sv2 dvi] s'|? ?|? ?]; auto. destruct H1 as [H1 H1']. destruct H2 as [_ H2].
+      split; [exact H1|]. split; [|exact H1']. split; [exact Hok|]. intros E. rewrite H2. apply Hp; exact E. }
+    intros [sv2 dvi]; cbn [snd]. apply sl_k_redelegate.
+  Qed.
+
+  (* ---------- versions that also hold at failure points (loops that swallow errors) ---------- *)
+  Lemma jd_inv_get_alliance_validator v1 : inv (JD 0) (get_alliance_validator v1).
+  Proof.
+    apply inv_of_hoare. intros s Hs. pose proof (sl_get_alliance_validator True 0 v1 s Hs) as H.
+    unfold get_alliance_validator, bind, gets in *. destruct (kget (svals s) [v1]); [|exact Hs].
+    destruct (kget (valinfos s) [v1]); [exact Hs|]. unfold set_valinfo, modify, ret in *. destruct H as [H _]. exact H.
+  Qed.
+
+  Lemma frame2 A (J I X : State -> Prop) (m : M A) : inv J m -> inv I m -> (forall s, J s /\ I s -> X s) ->
+    hoare (fun s => J s /\ I s) m (fun _ s => J s /\ I s) X.
+  Proof. intros H1 H2 HX s [HJ HI]. specialize (H1 s HJ). specialize (H2 s HI). destruct (m s); auto. Qed.
+
+  Lemma jd_add_assets_all v1 vi coins :
+    hoare (fun s => JD 0 s /\ PV v1 vi s) (add_assets_to_reward_pool v1 vi coins) (fun _ => JD 0) (JD 0).
+  Proof.
+    assert (Hw : forall vi0 s, JD 0 s /\ PV v1 vi0 s -> JD 0 s) by (intros vi0 s [H _]; exact H).
+    unfold add_assets_to_reward_pool. destruct (length (vi_dshares vi) =? 0)%nat; [apply hoare_ret; apply Hw|].
+    eapply hoare_bind with (Q1 := fun _ s => JD 0 s /\ PV v1 vi s); [unfold all_assets; apply hoare_gets; auto|]. intros als.
+    eapply hoare_bind with (Q1 := fun _ s => JD 0 s /\ PV v1 vi s); [apply hoare_gets; auto|]. intros t.
+    eapply hoare_bind with (Q1 := fun _ s => JD 0 s /\ PV v1 vi s).
+    { apply frame2; [inv_deep (JDg_f True 0) | inv_deep (PV_f v1 vi) | apply Hw]. }
+    intros hist.
+    eapply hoare_bind with (Q1 := fun _ s => JD 0 s /\ PV v1 (set_vi_hist hist vi) s).
+    { intros s [HJ [Hok Hp]]. pose proof (jd_set_valinfo True 0 v1 (set_vi_hist hist vi) 0 s) as H.
+      assert (Hpre : JDg True 0 s /\ vi_ok (set_vi_hist hist vi) /\ (v1 = v -> camount (vi_dshares (set_vi_hist hist vi)) dn = TOT s + 0)).
+      { split; [exact HJ|]. split; [exact Hok|]. intros E. cbn. rewrite (Hp E). lia. }
+      specialize (H Hpre). unfold set_valinfo, modify in *. cbn in H |- *. split.
+      - eapply JDg_eq; [|exact H]. destruct (v1 =? v); lia.
+      - split; [exact Hok|]. intros ->. unfold TOT, stored_vi. cbn [valinfos set_valinfos]. rewrite kget_kset_same. reflexivity. }
+    intros _.
+    eapply hoare_bind with (Q1 := fun _ s => JD 0 s /\ PV v1 (set_vi_hist hist vi) s).
+    { apply frame2; [inv_deep (JDg_f True 0) | inv_deep (PV_f v1 (set_vi_hist hist vi)) | apply Hw]. }
+    intros _. apply hoare_ret. apply Hw.
+  Qed.
+
+  Lemma jd_claim_validator_all v1 vi :
+    hoare (fun s => JD 0 s /\ PV v1 vi s) (claim_validator_rewards v1 vi) (fun _ => JD 0) (JD 0).
+  Proof.
+    assert (Hw : forall s, JD 0 s /\ PV v1 vi s -> JD 0 s) by (intros s [H _]; exact H).
+    unfold claim_validator_rewards.
+    eapply hoare_bind with (Q1 := fun _ s => JD 0 s /\ PV v1 vi s); [apply hoare_gets; auto|]. intros od.
+    destruct od; [|apply hoare_ret; exact Hw].
+    eapply hoare_bind with (Q1 := fun _ s => JD 0 s /\ PV v1 vi s).
+    { apply frame2; [inv_deep (JDg_f True 0) | inv_deep (PV_f v1 vi) | exact Hw]. }
+    intros coins. destruct (cis_zero coins); [apply hoare_ret; exact Hw | apply jd_add_assets_all].
+  Qed.
+
+  (* fetch a validator and settle its rewards: the body of the loops over all validators *)
+  Lemma jd_inv_fetch_and_claim A v1 (k : ValInfo -> M A) : (forall vi1, inv (JD 0) (k vi1)) ->
+    inv (JD 0) ('(_, vi) <- get_alliance_validator v1 ;; vi1 <- claim_validator_rewards v1 vi ;; k vi1).
+  Proof.
+    intros Hk. apply inv_of_hoare.
+    eapply hoare_bind with (Q1 := fun r s => JD 0 s /\ PV v1 (snd r) s).
+    { intros s Hs. pose proof (sl_get_alliance_validator True 0 v1 s Hs) as H. pose proof (jd_inv_get_alliance_validator v1 s Hs) as H'.
+      destruct (get_alliance_validator v1 s); auto. }
+    intros [sv vi]; cbn [snd].
+    eapply hoare_bind; [apply jd_claim_validator_all|]. intros vi1; cbv beta. apply inv_hoare. apply Hk.
+  Qed.
+
+  (* ---------- asset updates (governance and decay) ---------- *)
+  Lemma sl_update_alliance_asset na : hoare (JD 0) (update_alliance_asset na) (fun _ => JD 0) (fun _ => True).
+  Proof.
+    unfold update_alliance_asset.
+    eapply hoare_bind with (Q1 := fun _ => JD 0); [unfold get_asset; apply hoare_gets; auto|]. intros oa.
+    destruct oa as [a|]; [|apply hoare_fail; auto].
+    match goal with |- hoare _ (if ?b then _ else _) _ _ => destruct b end; [apply hoare_fail; auto|].
+    eapply hoare_bind with (Q1 := fun _ => JD 0).
+    { destruct (negb (a_weight na =? a_weight a)); [|apply hoare_ret; auto].
+      eapply hoare_bind with (Q1 := fun _ => JD 0); [apply hoare_gets; auto|]. intros infos.
+      eapply hoare_bind with (Q1 := fun _ => JD 0); [|intros _; frame True 0].
+      apply inv_hoare_true. apply inv_mfor_swallow. intros kv.
+      destruct (fst kv) as [|v1 [|]]; try apply inv_ret.
+      apply jd_inv_fetch_and_claim. intros vi1. inv_deep (JDg_f True 0). }
+    intros _.
+    eapply hoare_bind with (Q1 := fun _ => JD 0); [apply hoare_gets; auto|]. intros t.
+    apply inv_hoare_true. apply sl_set_asset.
+  Qed.
+
+  Lemma succ_mfold A B (J : State -> Prop) (l : list A) (f : B -> A -> M B) :
+    (forall acc x, hoare J (f acc x) (fun _ => J) (fun _ => True)) -> forall acc, hoare J (mfold l acc f) (fun _ => J) (fun _ => True).
+  Proof.
+    intros H; induction l as [|x l IH]; intros acc; cbn [mfold]; [apply hoare_ret; auto|].
+    eapply hoare_bind; [apply H | intros acc'; apply IH].
+  Qed.
+  Lemma succ_mfor A (J : State -> Prop) (l : list A) (f : A -> M unit) :
+    (forall x, hoare J (f x) (fun _ => J) (fun _ => True)) -> hoare J (mfor l f) (fun _ => J) (fun _ => True).
+  Proof. intros H. apply hoare_mfor. exact H. Qed.
+
+  Lemma sl_reward_weight_change_hook als : hoare (JD 0) (reward_weight_change_hook als) (fun _ => JD 0) (fun _ => True).
+  Proof.
+    unfold reward_weight_change_hook. eapply hoare_bind with (Q1 := fun _ => JD 0); [apply hoare_gets; auto|]. intros t.
+    apply succ_mfold. intros acc a.
+    destruct ((a_interval a =? 0) || (a_rate a =? ONE)); [apply hoare_ret; auto|].
+    destruct (t <? a_last a + a_interval a); [apply hoare_ret; auto|]. cbv zeta.
+    eapply hoare_bind with (Q1 := fun _ => JD 0); [frame True 0|]. intros m.
+    eapply hoare_bind with (Q1 := fun _ => JD 0); [frame True 0|]. intros w0.
+    eapply hoare_bind with (Q1 := fun _ => JD 0); [frame True 0|]. intros _.
+    eapply hoare_bind; [apply sl_update_alliance_asset|]. intros ?; cbv beta. apply hoare_ret; auto.
+  Qed.
+
+  (* ---------- rebalancing: validators are fetched once, settled later ---------- *)
+  Definition elem_ok (T0 : Z) (x : Z * SVal * ValInfo) : Prop :=
+    let '(v1, _, vi) := x in vi_ok vi /\ (v1 = v -> camount (vi_dshares vi) dn = T0).
+  Definition JT0 (T0 : Z) (s : State) : Prop := JD 0 s /\ TOT s = T0.
+
+  Lemma jt_frame T0 A (m : M A) : inv (JD 0) m -> inv (TF T0) m -> inv (JT0 T0) m.
+  Proof.
+    intros H1 H2 s [HJ HT]. specialize (H1 s HJ). specialize (H2 s (conj (JDg_sorted _ _ _ HJ) HT)).
+    destruct (m s); (split; [exact H1 | destruct H2; assumption]).
+  Qed.
+
+  Lemma jt_partition T0 : forall (l : KMap ValInfo) (acc : list (Z * SVal * ValInfo) * Coins), Forall (elem_ok T0) (fst acc) ->
+    hoare (JT0 T0)
+      (mfold_swallow l acc (fun (acc : list (Z * SVal * ValInfo) * Coins) (kv : Key * ValInfo) =>
+         match fst kv with
+         | [v1] =>
+           '(sv, vi) <- get_alliance_validator v1 ;;
+           if is_bonded sv then ret (fst acc ++ [(v1, sv, vi)], snd acc)
+           else ret (fst acc, cadd (snd acc) (vi_vshares vi))
+         | _ => ret acc
+         end))
+      (fun r s => JT0 T0 s /\ Forall (elem_ok T0) (fst r)) (fun _ => True).
+  Proof.
+    induction l as [|kv l IH]; intros acc Hacc; cbn [mfold_swallow]; [apply hoare_ret; auto|].
+    intros s Hs.
+    assert (Hbody : match (match fst kv with
+                           | [v1] => '(sv, vi) <- get_alliance_validator v1 ;;
+                                     if is_bonded sv then ret (fst acc ++ [(v1, sv, vi)], snd acc) else ret (fst acc, cadd (snd acc) (vi_vshares vi))
+                           | _ => ret acc end) s with
+                    | Ok acc' s' => JT0 T0 s' /\ Forall (elem_ok T0) (fst acc')
+                    | Err _ s' => JT0 T0 s'
+                    | Panic _ _ => True end).
+    { destruct (fst kv) as [|v1 [|]]; try (cbn; auto).
+      unfold bind. destruct Hs as [HJ HT].
+      pose proof (sl_get_alliance_validator True 0 v1 s HJ) as H1.
+      pose proof (jd_inv_get_alliance_validator v1 s HJ) as H1'.
+      pose proof (tf_get_alliance_validator T0 v1 s (conj (JDg_sorted _ _ _ HJ) HT)) as H2.
+      destruct (get_alliance_validator v1 s) as [[sv vi] s'|e s'|e s']; [|split; [exact H1' | destruct H2; assumption] | exact I].
+      destruct H1 as [H1 [Hok Hp]]. cbn [snd] in Hok, Hp. destruct H2 as [_ H2]. destruct (is_bonded sv); cbn [ret fst snd].
+      - split; [split; assumption|]. apply Forall_app. split; [exact Hacc|]. constructor; [|constructor].
+        cbn. split; [exact Hok|]. intros E. rewrite (Hp E). exact H2.
+      - split; [split; assumption | exact Hacc]. }
+    revert Hbody. match goal with |- match ?b with _ => _ end -> _ => destruct b as [acc' s'|e s'|e s'] end; intros Hbody.
+    - destruct Hbody as [Hs' Hacc']. apply (IH acc' Hacc' s' Hs').
+    - cbn. split; [exact Hbody | exact Hacc].
+    - exact I.
+  Qed.
+
+  Lemma jt_claim T0 v1 vi : vi_ok vi -> (v1 = v -> camount (vi_dshares vi) dn = T0) ->
+    hoare (JT0 T0) (claim_validator_rewards v1 vi) (fun _ => JT0 T0) (fun _ => True).
+  Proof.
+    intros Hok Hp s [HJ HT].
+    assert (HP : PV v1 vi s) by (split; [exact Hok | intros E; rewrite HT; apply Hp; exact E]).
+    pose proof (sl_claim_validator_rewards_same True 0 v1 vi s (conj HJ HP)) as H1.
+    destruct (Z.eq_dec v1 v) as [E|Hne].
+    - destruct (claim_validator_rewards v1 vi s) as [vi' s'|? ?|? ?]; auto. destruct H1 as [[H1 [_ Hp']] Hsame].
+      split; [exact H1|]. rewrite <- (Hp' E), Hsame. apply Hp; exact E.
+    - pose proof (tf_claim_validator_rewards T0 v1 vi Hne s (conj (JDg_sorted _ _ _ HJ) HT)) as H2.
+      destruct (claim_validator_rewards v1 vi s) as [vi' s'|? ?|? ?]; auto. destruct H1 as [[H1 _] _]. destruct H2 as [_ H2]. split; assumption.
+  Qed.
+  Ltac jt T0 := apply inv_hoare_true; apply jt_frame; [inv_deep (JDg_f True 0) | inv_deep (TF_f T0)].
+
+  Lemma sl_rebalance als : hoare (JD 0) (rebalance_bond_token_weights als) (fun _ => JD 0) (fun _ => True).
+  Proof.
+    unfold rebalance_bond_token_weights. apply hoare_bind_gets_eq. intros s0 Hs0.
+    set (T0 := TOT s0).
+    apply (hoare_pre _ _ (JT0 T0)); [intros s ->; split; [exact Hs0 | reflexivity]|].
+    eapply hoare_bind with (Q1 := fun _ => JT0 T0); [apply hoare_gets; auto|]. intros t.
+    eapply hoare_bind; [apply (jt_partition T0 (valinfos s0) ([], [])); constructor|]. intros [bonded unb]; cbv beta; cbn [fst].
+    intros s [Hs Hall].
+    match goal with |- match mfor bonded ?F s with _ => _ end =>
+      assert (Hb : forall x, elem_ok T0 x -> hoare (JT0 T0) (F x) (fun _ => JT0 T0) (fun _ => True));
+        [| pose proof (hoare_mfor_Forall _ _ _ _ _ _ Hall Hb s Hs) as H; destruct (mfor bonded F s); auto; destruct H; assumption]
+    end.
+    clear s Hs.
+    intros [[v1 sv] vi] [Hok Hp].
+    eapply hoare_bind with (Q1 := fun _ => JT0 T0); [apply hoare_gets; auto|]. intros od.
+    eapply hoare_bind with (Q1 := fun _ => JT0 T0); [jt T0|]. intros expected.
+    match goal with |- hoare _ (if ?b then _ else _) _ _ => destruct b end.
+    - cbv zeta. match goal with |- hoare _ (if ?b then _ else _) _ _ => destruct b end; [apply hoare_ret; auto|].
+      eapply hoare_bind with (Q1 := fun _ => JT0 T0); [jt T0|]. intros _.
+      eapply hoare_bind; [apply (jt_claim T0 v1 vi Hok Hp)|]. intros ?; cbv beta. jt T0.
+    - match goal with |- hoare _ (if ?b then _ else _) _ _ => destruct b end; [|apply hoare_ret; auto].
+      cbv zeta. match goal with |- hoare _ (if ?b then _ else _) _ _ => destruct b end; [apply hoare_ret; auto|].
+      eapply hoare_bind with (Q1 := fun _ => JT0 T0); [jt T0|]. intros sh.
+      eapply hoare_bind; [apply (jt_claim T0 v1 vi Hok Hp)|]. intros ?; cbv beta.
+      eapply hoare_bind with (Q1 := fun _ => JT0 T0); [jt T0|]. intros tok.
+      eapply hoare_bind with (Q1 := fun _ => JT0 T0); [jt T0|]. intros c.
+      jt T0.
+  Qed.
+
+  (* ---------- the whole end of block ---------- *)
+  Lemma sl_initialize_assets als : hoare (JD 0) (initialize_assets als) (fun _ => JD 0) (fun _ => True).
+  Proof.
+    unfold initialize_assets. eapply hoare_bind with (Q1 := fun _ => JD 0); [apply hoare_gets; auto|]. intros t.
+    apply succ_mfold. intros acc a. destruct (a_init a || negb (rewards_started a t)); [apply hoare_ret; auto|]. cbv zeta.
+    eapply hoare_bind with (Q1 := fun _ => JD 0); [apply inv_hoare_true, sl_set_asset | intros _; apply hoare_ret; auto].
+  Qed.
+
+  Lemma sl_deduct_assets_hook als : hoare (JD 0) (deduct_assets_hook als) (fun _ => JD 0) (fun _ => True).
+  Proof.
+    apply inv_hoare_true.
+    repeat first
+      [ lazymatch goal with
+        | |- inv _ (set_asset _) => apply sl_set_asset
+        | |- inv _ (modify _) =>
+          apply inv_modify; let s := fresh "s" in let Hs := fresh "Hs" in
+          intros s Hs; apply (JDg_f True 0 s); [reflexivity | exact Hs]
+        end
+      | inv_step
+      | lazymatch goal with |- inv _ ?m =>
+          let h := head_of m in lazymatch h with set_asset => fail | _ => unfold h end end ].
+  Qed.
+
+  Lemma sl_end_blocker : hoare (JD 0) end_blocker (fun _ => JD 0) (fun _ => True).
+  Proof.
+    unfold end_blocker.
+    eapply hoare_bind with (Q1 := fun _ => JD 0); [frame True 0|]. intros _.
+    eapply hoare_bind with (Q1 := fun _ => JD 0); [frame True 0|]. intros _.
+    eapply hoare_bind with (Q1 := fun _ => JD 0); [unfold all_assets; apply hoare_gets; auto|]. intros als.
+    eapply hoare_bind; [apply sl_initialize_assets|]. intros als1; cbv beta.
+    eapply hoare_bind; [apply sl_deduct_assets_hook|]. intros als2; cbv beta.
+    eapply hoare_bind; [apply sl_reward_weight_change_hook|]. intros als3; cbv beta.
+    unfold rebalance_hook. eapply hoare_bind with (Q1 := fun _ => JD 0); [apply hoare_gets; auto|]. intros f.
+    destruct f; [|apply hoare_ret; auto].
+    eapply hoare_bind with (Q1 := fun _ => JD 0); [frame True 0|]. intros _. apply sl_rebalance.
+  Qed.
+
+  (* ---------- governance ---------- *)
+  Lemma sl_msg_create m : hoare (JD 0) (msg_create_alliance m) (fun _ => JD 0) (fun _ => True).
+  Proof.
+    apply inv_hoare_true.
+    repeat first
+      [ lazymatch goal with
+        | |- inv _ (set_asset _) => apply sl_set_asset
+        | |- inv _ (modify _) =>
+          apply inv_modify; let s := fresh "s" in let Hs := fresh "Hs" in
+          intros s Hs; apply (JDg_f True 0 s); [reflexivity | exact Hs]
+        end
+      | inv_step
+      | lazymatch goal with |- inv _ ?m =>
+          let h := head_of m in lazymatch h with set_asset => fail | _ => unfold h end end ].
+  Qed.
+  Lemma sl_msg_update m : hoare (JD 0) (msg_update_alliance m) (fun _ => JD 0) (fun _ => True).
+  Proof.
+    unfold msg_update_alliance.
+    repeat match goal with
+           | |- hoare _ (if ?b then _ else _) _ _ => destruct b
+           | |- hoare _ (match ?x with _ => _ end) _ _ => destruct x
+           | |- hoare _ (fail _) _ _ => apply hoare_fail; auto
+           | |- hoare _ (panic _) _ _ => apply hoare_panic; auto
+           | |- hoare _ (bind (get_asset _) _) _ _ => eapply hoare_bind with (Q1 := fun _ => JD 0); [unfold get_asset; apply hoare_gets; auto | intros ?]
+           | |- hoare _ (update_alliance_asset _) _ _ => apply sl_update_alliance_asset
+           end.
+  Qed.
+  (* deleting an asset keeps both sides of the ledger (it removes an asset record only) *)
+  Lemma sl_msg_delete au d0 : hoare (JD 0) (msg_delete_alliance au d0) (fun _ => JD 0) (fun _ => True).
+  Proof.
+    unfold msg_delete_alliance. destruct (d0 <? 0); [apply hoare_fail; auto|]. destruct (negb (au =? AUTHORITY)); [apply hoare_fail; auto|].
+    eapply hoare_bind with (Q1 := fun _ => JD 0); [unfold get_asset; apply hoare_gets; auto|]. intros oa.
+    destruct oa as [a|]; [|apply hoare_fail; auto]. destruct (0 <? a_tokens a); [apply hoare_fail; auto|].
+    apply hoare_modify. intros s ((H1 & H2 & H3 & H4 & H5) & Hn & Hsum). split; [|split; [exact Hn | exact Hsum]].
+    unfold Base0, WK. cbn [delegations valinfos assets set_assets]. repeat split; try assumption. apply kall_kdel; exact H4.
+  Qed.
+  Lemma sl_msg_params au a b c : hoare (JD 0) (msg_update_params au a b c) (fun _ => JD 0) (fun _ => True).
+  Proof. frame True 0. Qed.
+
+  (* ---------- every operation; every history ---------- *)
+  (* assumed of a step: a slash callback that returns an ERROR keeps partial writes (C08) and is
+     excluded; x/staking removes a validator (AfterValidatorRemoved deletes its record) only when the
+     record carries no delegator shares of the asset *)
+  Definition adm_sl (s : State) (o : Op) : Prop :=
+    match o with
+    | OHookSlash _ _ => snd (step s o) <> R_ERR
+    | ERemoveValInfo v0 => v0 = v -> TOT s = 0
+    | _ => True
+    end.
+
+  Lemma JD_set_oracle o s : JD 0 s -> JD 0 (set_oracle o s).
+  Proof. intros H; exact H. Qed.
+  Lemma sl_wrap_tx (m : M unit) s : hoare (JD 0) m (fun _ => JD 0) (fun _ => True) -> JD 0 s -> JD 0 (fst (clear_oracle (tx m s))).
+  Proof. intros Hm Hs. specialize (Hm s Hs). unfold tx, clear_oracle. destruct (m s); cbn; assumption. Qed.
+  Lemma sl_wrap_endblock (m : M unit) s : hoare (JD 0) m (fun _ => JD 0) (fun _ => True) -> JD 0 s -> JD 0 (fst (clear_oracle (endblock m s))).
+  Proof. intros Hm Hs. specialize (Hm s Hs). unfold endblock, clear_oracle. destruct (m s); cbn; assumption. Qed.
+  Lemma sl_wrap_hook (m : M unit) s : hoare (JD 0) m (fun _ => JD 0) (fun _ => True) -> JD 0 s ->
+    snd (clear_oracle (hook m s)) <> R_ERR -> JD 0 (fst (clear_oracle (hook m s))).
+  Proof.
+    intros Hm Hs Hne. specialize (Hm s Hs). unfold hook, clear_oracle in *. destruct (m s); cbn in *; try assumption.
+    exfalso. apply Hne. reflexivity.
+  Qed.
+  Lemma JD_fold_put_bal bs s : JD 0 s -> JD 0 (fold_left (fun s b => put_bal (fst (fst b)) (snd (fst b)) (snd b) s) bs s).
+  Proof. revert s; induction bs as [|b bs IH]; intros s Hs; cbn; auto. Qed.
+  Lemma JD_fold_put_sup ss s : JD 0 s -> JD 0 (fold_left (fun s ds => put_sup (fst ds) (snd ds) s) ss s).
+  Proof. revert s; induction ss as [|b bs IH]; intros s Hs; cbn; auto. Qed.
+
+  Theorem step_JD s o : JD 0 s -> adm_sl s o -> JD 0 (fst (step s o)).
+  Proof.
+    intros Hs Ha; destruct o; cbn [step adm_sl] in *; try exact Hs.
+    - apply sl_wrap_endblock; [apply sl_end_blocker | exact Hs].
+    - apply sl_wrap_tx; [apply sl_msg_delegate | exact Hs].
+    - apply sl_wrap_tx; [apply sl_msg_undelegate | exact Hs].
+    - apply sl_wrap_tx; [apply sl_msg_redelegate | exact Hs].
+    - apply sl_wrap_tx; [apply sl_msg_claim | exact Hs].
+    - apply sl_wrap_tx; [apply sl_msg_create | exact Hs].
+    - apply sl_wrap_tx; [apply sl_msg_update | exact Hs].
+    - apply sl_wrap_tx; [apply sl_msg_delete | exact Hs].
+    - apply sl_wrap_tx; [apply sl_msg_params | exact Hs].
+    - apply sl_wrap_hook; [apply sl_hook_slash | exact Hs | exact Ha].
+    - cbn. apply JD_fold_put_sup, JD_fold_put_bal; exact Hs.
+    - (* the validator record is removed *)
+      destruct Hs as ((H1 & H2 & H3 & H4 & H5) & Hn & Hsum). split; [|split; [exact Hn|]].
+      + unfold Base0, WK. cbn [delegations valinfos assets set_valinfos]. repeat split; try assumption; [apply ksorted_kdel; exact H2 | apply vall_kdel; exact H3].
+      + transitivity (SUM s); [reflexivity|]. rewrite Hsum. f_equal.
+        unfold TOT, stored_vi. cbn [valinfos set_valinfos fst].
+        destruct (Z.eq_dec val v) as [E|Hne].
+        * subst val. rewrite kget_kdel_same by exact H2. specialize (Ha eq_refl). unfold TOT, stored_vi in Ha. rewrite Ha. reflexivity.
+        * rewrite kget_kdel_other by (auto; congruence). reflexivity.
+    - (* a genesis asset *)
+      destruct Hs as ((H1 & H2 & H3 & H4 & H5) & Hn & Hsum). split; [|split; [exact Hn | exact Hsum]].
+      unfold Base0, WK. cbn [delegations valinfos assets set_assets]. repeat split; try assumption. apply kall_kset; [exact H4 | reflexivity].
+  Qed.
+
+  Fixpoint adm_sl_run (s : State) (h : list Op) : Prop :=
+    match h with [] => True | o :: h' => adm_sl s o /\ adm_sl_run (fst (step s o)) h' end.
+  Theorem run_JD h : forall s, JD 0 s -> adm_sl_run s h -> JD 0 (run s h).
+  Proof.
+    induction h as [|o h IH]; intros s Hs Ha; cbn [run fold_left]; [exact Hs|].
+    destruct Ha as [Ha1 Ha2]. apply IH; [apply step_JD; assumption | exact Ha2].
+  Qed.
+  Lemma JD_init : JD 0 init_state.
+  Proof. split; [repeat split; constructor|]. split; [intros _; constructor | reflexivity]. Qed.
+
+  (* the two sides in the words of the specification (Spec.check_C03, clause 1) *)
+  Lemma SUM_is_spec s : SUM s = deleg_share_sum s v dn.
+  Proof.
+    unfold SUM, deleg_share_sum, ksum. induction (delegations s) as [|[k x] m IH]; cbn [fold_right fst snd]; [reflexivity|].
+    rewrite IH. unfold fsh. destruct k as [|a [|b [|c [|]]]]; try lia. destruct ((b =? v) && (c =? dn)); lia.
+  Qed.
+  Lemma TOT_is_spec s : TOT s = dshares_of s v dn.
+  Proof. unfold TOT, dshares_of, stored_vi. destruct (kget (valinfos s) [v]); reflexivity. Qed.
 End Pair.
+
+(* C03, delegator half: in every reachable state the delegations of (validator, asset) sum to the validator's
+   recorded delegator shares of that asset, and no delegation has negative shares *)
+Theorem delegator_shares_sum_to_the_total v dn h : adm_sl_run v dn init_state h ->
+  let s := run init_state h in
+  deleg_share_sum s v dn = dshares_of s v dn /\
+  forall k x, kget (delegations s) k = Some x -> 0 <= d_shares x.
+Proof.
+  intros Ha s. pose proof (run_JD v dn h init_state (JD_init v dn) Ha) as (Hb & Hn & Hsum). fold s in Hb, Hn, Hsum. split.
+  - rewrite <- SUM_is_spec, <- TOT_is_spec. lia.
+  - intros k x Hg. specialize (Hn I). exact (vall_kget (fun x => 0 <= d_shares x) _ _ _ Hn Hg).
+Qed.
